@@ -967,8 +967,13 @@ impl<'a> Parser<'a> {
 
             self.consume(TokenKind::LeftBrace, "Expected '{' after variable.");
 
+            // While the catch block runs, a handler installed on its entry routes every exit from it
+            // through the statement's finally block.
+            self.compiler_mut().in_try_block = true;
             self.block();
+            self.compiler_mut().in_try_block = prev_in_try_block;
             self.end_scope();
+            self.emit_byte(OpCode::PopExcHandler as u8);
         }
 
         self.patch_jump(catch_jump_pos);
